@@ -25,6 +25,7 @@ CONSTANTS V,        \* vocabulary size
           Cfgs,     \* sequence of configurations to pair with every corpus
           Prunes,   \* sequence of [excluded : set of tokens, mask : BOOLEAN] vocabulary settings (C14);
                     \* <<[excluded |-> {}, mask |-> FALSE]>> leaves the corpus as it is
+          Eps,      \* sequence of thresholds <<num, den>> for which the epsilon-thresholded matrix is emitted (C11); may be <<>>
           TIMED,    \* BOOLEAN: timed variant
           Gaps,     \* allowed time gaps between consecutive tokens ({1} when not TIMED)
           EMIT      \* print every finished instance with its expected cells
@@ -103,6 +104,21 @@ NullifyRemovesOnlyTheMask == done /\ Cfgs[ci].nullify =>
           \A i \in DOMAIN IWins(cfg), a \in 0..(V - 1), b \in 0..(V - 1) :
              DeclCell(cfg, EC, ET, i, a, b) = DeclCell(plain, EC, ET, i, a, b))
 
+\* ---------------------------------------------------------------- C11: n_iter = 0, epsilon > 0 (integers only)
+\* L1-normalise every column, then zero the entries below epsilon = en/ed:  keep iff  P * ed >= en * colsum;  value P / colsum
+\* (defined for configurations without window / kernel normalisation, where every cell is one integer over KDen)
+PlainVal(cfg, cs, k) == CellInt(cs, k, KDen(cfg))
+ColTotal(cfg, cs, b, c) == SumOver({k \in DOMAIN cs : k[1] = b /\ k[3] = c}, LAMBDA k : PlainVal(cfg, cs, k))
+Thresh(cfg, cs, e) == {<<k, PlainVal(cfg, cs, k), ColTotal(cfg, cs, k[1], k[3])>> :
+                        k \in {kk \in DOMAIN cs : PlainVal(cfg, cs, kk) * e[2] >= e[1] * ColTotal(cfg, cs, kk[1], kk[3])}}
+\* consequences stated by C11: every kept entry is at least epsilon and at most 1, every column sums to at most 1
+ThreshOK == done /\ Plain(Cfgs[ci]) =>
+   \A i \in DOMAIN Eps : LET cs == Cells(Cfgs[ci], EC, ET)  th == Thresh(Cfgs[ci], cs, Eps[i]) IN
+      /\ \A t \in th : t[2] > 0 /\ t[2] <= t[3] /\ t[2] * Eps[i][2] >= Eps[i][1] * t[3]
+      /\ \A t \in th : SumOver({u \in th : u[1][1] = t[1][1] /\ u[1][3] = t[1][3]}, LAMBDA u : u[2]) <= t[3]
+ThreshJson(cfg, cs) == LET ws == IWins(cfg) IN
+   [i \in DOMAIN Eps |-> SetToSeq({[b |-> BlockLabel(ws[t[1][1]]), r |-> t[1][2], c |-> t[1][3], n |-> t[2], d |-> t[3]] : t \in Thresh(cfg, cs, Eps[i])})]
+
 \* ---------------------------------------------------------------- instance generation
 Init == corpus = << <<>> >> /\ times = << <<>> >> /\ ci \in DOMAIN Cfgs /\ pi \in DOMAIN Prunes /\ done = FALSE
 LastTime(ts) == IF ts = <<>> THEN 0 ELSE ts[Len(ts)]
@@ -120,6 +136,7 @@ Spec == Init /\ [][Next]_vars
 
 EmitInv == IF EMIT /\ done
            THEN PrintT(ToJson([corpus |-> corpus, times |-> times, ci |-> ci, pi |-> pi,
-                               cells |-> CellsJson(Cfgs[ci], Cells(Cfgs[ci], EC, ET))]))
+                               cells |-> CellsJson(Cfgs[ci], Cells(Cfgs[ci], EC, ET)),
+                               thresh |-> IF Plain(Cfgs[ci]) /\ Eps # <<>> THEN ThreshJson(Cfgs[ci], Cells(Cfgs[ci], EC, ET)) ELSE <<>>]))
            ELSE TRUE
 ====
